@@ -255,6 +255,15 @@ def enum_large(tier, shard, nshards):
         i += 1
         if i % nshards == shard:
             yield {'h': h, 'w': w, 'k': 'interior_then_empty'}
+        for c in range(1, 10 if tier == 'quick' else 40):
+            i += 1
+            if i % nshards == shard:
+                yield {'h': h, 'w': w, 'k': f'clutter{c}'}
+    for (h, w) in [(15, 15), (33, 33)] if tier == 'quick' else [(15, 15), (21, 21), (33, 33), (25, 41)]:
+        for part in range(8):
+            i += 1
+            if i % nshards == shard:
+                yield {'h': h, 'w': w, 'k': 'single_lit_ray', 'part': part, 'parts': 8}
     for (h, w) in LARGE[tier]:
         for k in range(4 if tier == 'quick' else 8):
             i += 1
@@ -264,6 +273,100 @@ def enum_large(tier, shard, nshards):
 
 def oracle_large(case, ctx):
     h, w, k = case['h'], case['w'], case['k']
+    if k == 'single_lit_ray':
+        # the extreme case of counting rays: a cell that many rays cross but exactly one reaches lit (all others are blocked by walls
+        # placed on them before the cell).  One world per distinct number of crossing rays.  If such a cell is reported hidden, the light
+        # still passes through it, so replacing it by a wall must not change the observation -- which it does.
+        from gym_gridverse.utils import raytracing as rt
+        from gym_gridverse.geometry import Area
+        pos = (h - 1, w // 2)
+        rays = [[(q.y, q.x) for q in r] for r in rt.cached_compute_rays_fancy(Position(*pos), Area((0, h - 1), (0, w - 1)))]
+        through = {}
+        for ri, r in enumerate(rays):
+            for ci, c in enumerate(r):
+                through.setdefault(c, []).append((ri, ci))
+        by_n = {}
+        for c, lst in through.items():
+            if c != pos and len(lst) >= 2:
+                by_n.setdefault(len(lst), c)
+        targets = [by_n[n] for n in sorted(by_n)]
+        mine = [t for idx, t in enumerate(targets) if idx % case['parts'] == case['part']]
+        if tier_cap := (24 if ctx.tier == 'quick' else 400):
+            mine = mine[:tier_cap]
+        built = 0
+        for t in mine:
+            lst = through[t]
+            ok = False
+            for (keep_ri, keep_ci) in lst:          # which ray stays lit: the first choice for which every other ray can be blocked separately
+                keep = set(rays[keep_ri][:keep_ci + 1])
+                walls = set()
+                ok = True
+                for (ri, ci) in lst:
+                    if ri == keep_ri:
+                        continue
+                    blockers = [c for c in rays[ri][1:ci] if c not in keep and c != t]
+                    if not blockers:
+                        ok = False      # this ray coincides with the kept one up to the target
+                        break
+                    walls.add(blockers[-1])
+                if ok:
+                    break
+            if not ok:
+                continue
+            rows = [['W' if (i, j) in walls else 'F' for j in range(w)] for i in range(h)]
+            sh, _ = vis_of('raytracing', rows, pos)
+            built += 1
+            if t not in sh:
+                rows2 = [list(r) for r in rows]
+                rows2[t[0]][t[1]] = 'W'
+                sh2, _ = vis_of('raytracing', rows2, pos)
+                if sh2 != sh:
+                    ctx.fail(f'raytracing, {h}x{w} view: the cell {t} (crossed by {len(lst)} rays, reached lit by one) is reported hidden, yet replacing it by a wall changes what is shown at '
+                             f'{sorted(sh ^ sh2)[:5]}: a hidden cell carried information', {'kind': 'non_interference', 'f': 'raytracing'})
+        ctx.ev.case(case, nt=built > 0, classes=[f'view{h}x{w}', 'single_lit_ray_worlds'])
+        ctx.ev.count('single_lit_ray_worlds_built', built)
+        return
+    if isinstance(k, str) and k.startswith('clutter'):
+        # a cluttered view of more than 1000 cells: hidden cells that lie among visible ones are replaced by a wall, one at a time --
+        # a cell that is not shown carries no information, so the observation must not change
+        c = int(k[7:])
+        pos = (h - 1, w // 2)
+        rows = [['W' if ((i * 7 + j * 13 + c * 5) % (9 + 2 * (c % 7)) == 0 or (c > 9 and (i * i + j * c) % 97 == 0)) and (i, j) != pos else 'F' for j in range(w)] for i in range(h)]
+        sh, arr = vis_of('raytracing', rows, pos)
+        sig = {'kind': 'occlusion_large', 'f': 'raytracing'}
+        if pos not in sh:
+            ctx.fail(f"raytracing: the agent's own cell is hidden in a cluttered {h}x{w} view", sig)
+        cand = []
+        for i in range(h):
+            for j in range(w):
+                if (i, j) in sh or rows[i][j] != 'F':
+                    continue
+                near = sum(1 for di in (-1, 0, 1) for dj in (-1, 0, 1) if (di or dj) and (i + di, j + dj) in sh)
+                if near >= 4:
+                    cand.append((near, i, j))
+        cand.sort(reverse=True)
+        cand = cand[:12]
+        # candidates of another kind: hidden cells that, counting with the library's own rays, some ray reaches lit (light passes on from
+        # them, so their content matters to what lies behind)
+        from gym_gridverse.utils import raytracing as rt
+        from gym_gridverse.geometry import Area
+        lit = set()
+        for ray in rt.cached_compute_rays_fancy(Position(*pos), Area((0, h - 1), (0, w - 1))):
+            for q in ray:
+                lit.add((q.y, q.x))
+                if rows[q.y][q.x] == 'W':
+                    break
+        odd = sorted((i, j) for (i, j) in lit - sh if rows[i][j] == 'F')
+        cand = [(9, i, j) for (i, j) in odd[:20]] + cand
+        for _, i, j in cand:
+            rows2 = [list(r) for r in rows]
+            rows2[i][j] = 'W'
+            sh2, _ = vis_of('raytracing', rows2, pos)
+            if sh2 != sh:
+                ctx.fail(f'raytracing, cluttered {h}x{w} view: the hidden floor cell {(i, j)} (with visible cells around it) replaced by a wall changes what is shown at '
+                         f'{sorted(sh ^ sh2)[:5]}: a hidden cell carried information', {'kind': 'non_interference', 'f': 'raytracing'})
+        ctx.ev.case(case, nt=True, classes=[f'view{h}x{w}', 'view>1000cells', 'cluttered_large_view'] + (['hidden_among_visible'] if cand else []) + (['hidden_but_reached_lit'] if odd else []))
+        return
     if k == 'interior_then_empty':
         pos = (h - 1, w // 2)
         for f in ('raytracing', 'partially_occluded'):
@@ -320,7 +423,7 @@ CHECKS = [
                'own cell, linkage, flipping any hidden cell, clearing any visible opaque cell, stochastic bounds'),
     Check('large_views', oracle_large, enumerate=enum_large, shards={'quick': 8, 'thorough': 16},
           rule='views 9x9..15x15 (thorough: up to 21x21, 7x31, 31x7, 15x31) empty and with sparse wall patterns: own cell, linkage, unobstructed view shows everything, stochastic bounds; views of 33x33 and 25x41 cells: walls in the interior only, then empty, alternating in one process',
-          required=['view>1000cells']),
+          required=['view>1000cells', 'cluttered_large_view', 'single_lit_ray_worlds', 'single_lit_ray_worlds_built']),
     Check('stochastic_extremes', oracle_extreme, strategy=strat_extreme, examples={'quick': 250, 'thorough': 1000}, shards={'quick': 2, 'thorough': 8},
           rule='stochastic_raytracing driven by an adversarial Generator whose draws are legal extremes (exactly 0.0, the largest double below 1) : shown set between its deterministic bounds',
           required=['mode:low', 'mode:high', 'dark_cells_in_view']),
